@@ -109,6 +109,10 @@ def build(run):
         ("list tensor matrix [[u,0],[0,0]]", lambda: inner(ufl.as_matrix([[u, 0], [0, 0]]), grad(vv)) * dx - f * vv[0] * dx),
         ("list tensor matrix [[0,0],[grad u . w, 0]]", lambda: inner(ufl.as_matrix([[0, 0], [dot(grad(u), w_), 0]]), grad(vv)) * dx + dot(w_, vv) * dx),
         ("list tensor of test components [v0, 0]", lambda: u * dot(as_vector([vv[0], 0]), w_) * dx - f * dot(as_vector([vv[1], 0]), w_) * dx),
+        # forms with a single argument plus argument-free terms (separate integrals, or inside the same integrand)
+        ("linear + functional terms", lambda: f * v * dx + g * dx + g * f * ds),
+        ("linear + functional in one integrand", lambda: (f * v + g) * dx),
+        ("only functional", lambda: f * g * dx + sin(f) * ds),
         # labelled sub-expressions (ufl.variable) that provide fewer, exactly, or all of the wanted arguments
         ("variable coefficient factor", lambda: ufl.variable(1 + g * g) * u * v * dx - ufl.variable(1 + g * g) * f * v * dx),
         ("variable residual (u - f)", lambda: ufl.variable(u - f) * v * dx),
